@@ -182,7 +182,7 @@ func run(e *harness.Env) {
 	e.Rule = "(A) selections: all Pages(seq) with |seq|<=3 over 0..5, all PageRange(a,b) a,b in 0..5, all two-call chains of (Pages(|seq|<=2) | PageRange) x (Pages(|seq|<=1) | PageRange), " +
 		"x option sets (all 32 for ranges and short sequences, default otherwise) x terminals {Text, Fragments, Document, Chunks}; (B) BFS over operation sequences (depth 4 quick / 5 thorough) " +
 		"over {derive Pages(2)/ByColumn/ExcludeHeaders, PageCount, IsMultiColumn, Text, Chunks, Close} on base and derived extractor, state = (exists, kind, model handle ownership, open descriptors); " +
-		"(C) failing terminals. distinct = descriptors; non-trivial = everything except the unrestricted default selection"
+		"(C) failing terminals; (F) on a document with mixed page layouts (single / two columns / single): probe sequences {PageCount, IsMultiColumn} before and after a derivation x 6 derivations x {Text, ToMarkdown, Chunks, Document} against the same call on a never-probed base. distinct = descriptors; non-trivial = everything except the unrestricted default selection"
 	e.Assumptions = []string{"internal/gen/pdfw 4-page document (3 text lines per page, distinct tokens)", "/proc/self/fd lists the process' descriptors"}
 	dir := harness.Scratch()
 	defer os.RemoveAll(dir)
@@ -197,6 +197,141 @@ func run(e *harness.Env) {
 	partC(e, dir, path, built.Bytes)
 	partD(e, path)
 	partE(e, dir)
+	partF(e, dir)
+}
+
+// partF: non-terminal probes (PageCount, IsMultiColumn) never change what a later terminal operation returns,
+// on the probed extractor or on extractors derived from it. The document mixes page layouts (single column /
+// two columns / single column), so anything a probe remembers about one page is wrong for another. The oracle
+// is differential: the same derivation and terminal on a fresh base that was never probed.
+func partF(e *harness.Env, dir string) {
+	var d pdfw.Doc
+	d.Name = "cols"
+	for p := 1; p <= 3; p++ {
+		var pg pdfw.Page
+		y := 720.0
+		for l := 1; l <= 24; l++ {
+			if p == 2 {
+				pg.Lines = append(pg.Lines,
+					pdfw.Line{Font: pdfw.Type1WinAnsi, Text: fmt.Sprintf("left%02d column line of the story", l), X: 72, Y: y, Size: 10},
+					pdfw.Line{Font: pdfw.Type1WinAnsi, Text: fmt.Sprintf("right%02d column line of the story", l), X: 330, Y: y, Size: 10})
+			} else {
+				pg.Lines = append(pg.Lines, pdfw.Line{Font: pdfw.Type1WinAnsi, X: 72, Y: y, Size: 10,
+					Text: fmt.Sprintf("p%dline%02d runs across the whole width of the page from the left margin to the right one", p, l)})
+			}
+			y -= 14
+		}
+		d.Pages = append(d.Pages, pg)
+	}
+	path := filepath.Join(dir, "cols.pdf")
+	if err := os.WriteFile(path, pdfw.Write(d, pdfw.Layout{}).Bytes, 0o644); err != nil {
+		panic(err)
+	}
+	probe := func(x *tabula.Extractor, name string) {
+		switch name {
+		case "PC":
+			_, _ = x.PageCount()
+		case "MC":
+			_, _ = x.IsMultiColumn()
+		}
+	}
+	derive := func(x *tabula.Extractor, name string) *tabula.Extractor {
+		switch name {
+		case "Pages(2)":
+			return x.Pages(2)
+		case "Pages(1,2)":
+			return x.Pages(1, 2)
+		case "Pages(2,3)":
+			return x.Pages(2, 3)
+		case "PageRange(1,3)":
+			return x.PageRange(1, 3)
+		case "Pages(3)":
+			return x.Pages(3)
+		}
+		return x
+	}
+	terminal := func(x *tabula.Extractor, name string) string {
+		switch name {
+		case "Text":
+			t, _, err := x.Text()
+			return fmt.Sprintf("%q %v", t, err)
+		case "ToMarkdown":
+			t, _, err := x.ToMarkdown()
+			return fmt.Sprintf("%q %v", t, err)
+		case "Chunks":
+			c, _, err := x.Chunks()
+			if err != nil {
+				return "error: " + err.Error()
+			}
+			var b strings.Builder
+			for _, ch := range c.Chunks {
+				fmt.Fprintf(&b, "[%d-%d %q]", ch.Metadata.PageStart, ch.Metadata.PageEnd, ch.Text)
+			}
+			return b.String()
+		case "Document":
+			doc, _, err := x.Document()
+			if err != nil {
+				return "error: " + err.Error()
+			}
+			var b strings.Builder
+			for _, pg := range doc.Pages {
+				fmt.Fprintf(&b, "{%d %s}", pg.Number, renderPage(pg))
+			}
+			return b.String()
+		}
+		return ""
+	}
+	// vacuity guard: the middle page must really be read column by column by a fresh extractor
+	if t2, _, err := tabula.Open(path).Pages(2).Text(); err == nil {
+		l, r := strings.Index(t2, "left24"), strings.Index(t2, "right01")
+		if l >= 0 && r >= 0 && l < r {
+			e.Note("partF_two_column_page", "read column by column by a fresh extractor (left24 before right01)")
+		} else {
+			e.Note("partF_two_column_page", "NOT read column by column by a fresh extractor: part F cannot see layout-dependent state")
+		}
+	}
+	befores := [][]string{{}, {"PC"}, {"MC"}, {"PC", "MC"}, {"MC", "PC"}, {"MC", "MC"}}
+	afters := [][]string{{}, {"PC"}, {"MC"}}
+	for _, bf := range befores {
+		for _, dv := range []string{"-", "Pages(2)", "Pages(1,2)", "Pages(2,3)", "PageRange(1,3)", "Pages(3)"} {
+			for _, af := range afters {
+				for _, term := range []string{"Text", "ToMarkdown", "Chunks", "Document"} {
+					desc := harness.D("part", "F", "before", strings.Join(bf, "+"), "derive", dv, "after", strings.Join(af, "+"), "term", term)
+					if !e.Own(desc) {
+						continue
+					}
+					e.Begin(desc)
+					var want, got string
+					psig, pdet := harness.Guard(func() {
+						fresh := tabula.Open(path)
+						want = terminal(derive(fresh, dv), term)
+						fresh.Close()
+						base := tabula.Open(path)
+						for _, b := range bf {
+							probe(base, b)
+						}
+						dx := derive(base, dv)
+						for _, a := range af {
+							probe(dx, a)
+						}
+						got = terminal(dx, term)
+						dx.Close()
+						base.Close()
+					})
+					switch {
+					case psig != "":
+						e.Fail(desc, psig, pdet, nil)
+					case got != want:
+						e.Fail(desc, "probe-changes-later-result", fmt.Sprintf("after probes %v on the base and %v on the derived extractor %s, %s differs from the same call on a base that was never probed:\nprobed: %s\nfresh:  %s", bf, af, dv, term, clip(got), clip(want)), nil)
+					case fdCount(path) != 0:
+						e.Fail(desc, "handle-left-open-after-close", fmt.Sprintf("%d descriptors open", fdCount(path)), nil)
+					default:
+						e.Pass(desc, len(bf)+len(af) > 0, "probes-transparent:"+term)
+					}
+				}
+			}
+		}
+	}
 }
 
 // partE: every format releases its handle after every terminal operation, successful or failed
